@@ -45,3 +45,67 @@ Definition checkIn (k : caseIn) : bool :=
   | Some xs => tri_eqb (contains (m_v k) (m_S k) (ETens xs 0 [])) (m_res k)
   | None => tri_eqb FF (m_res k)
   end.
+
+(* ------------------------------------------------------------ derived spaces *)
+From Verif Require Import Gen.C20Tables C20.Derived.
+
+Definition wkind_beq (a b : wkind) := match a, b with KNpy, KNpy | KPs, KPs => true | _, _ => false end.
+Definition ext_beq (a b : ext Q) := ext_eqb a b.
+Definition expo_beq (a b : expo Q) := expo_eqb a b.
+Definition w_beq (a b : weighting Q) : bool :=
+  match a, b with
+  | WConst k c e, WConst k' c' e' => wkind_beq k k' && Qeq_bool c c' && expo_beq e e'
+  | WArray k i e, WArray k' i' e' => wkind_beq k k' && Z.eqb i i' && expo_beq e e'
+  | WInner k f, WInner k' f' => wkind_beq k k' && Z.eqb f f'
+  | WNorm k f, WNorm k' f' => wkind_beq k k' && Z.eqb f f'
+  | WDist k f, WDist k' f' => wkind_beq k k' && Z.eqb f f'
+  | _, _ => false
+  end.
+Definition tsp_beq (a b : tsp Q) : bool :=
+  Zs_eqb (ts_shape a) (ts_shape b) && dtype_eqb (ts_dtype a) (ts_dtype b) && w_beq (ts_w a) (ts_w b).
+Definition part_beq (a b : part Q) : bool :=
+  all2 (fun x y => ext_beq (fst x) (fst y) && ext_beq (snd x) (snd y)) (p_intv a) (p_intv b)
+  && all2 (all2 Qeq_bool) (p_grid a) (p_grid b).
+
+(* exact agreement of two space descriptors (class family of weightings and field included) *)
+Fixpoint obj_beq (a b : obj Q) {struct a} : bool :=
+  match a, b with
+  | OTensor t, OTensor t' => tsp_beq t t'
+  | ODiscr p t, ODiscr p' t' => part_beq p p' && tsp_beq t t'
+  | OProd l w f, OProd l' w' f' =>
+      w_beq w w' && ofield_eqb f f' &&
+      (fix go (l l' : list (obj Q)) {struct l} : bool :=
+         match l, l' with
+         | [], [] => true
+         | x :: l1, y :: l2 => obj_beq x y && go l1 l2
+         | _, _ => false
+         end) l l'
+  | OReal, OReal | OComplex, OComplex => true
+  | _, _ => false
+  end.
+
+Definition res_beq {A} (f : A -> A -> bool) (a b : res A) : bool :=
+  match a, b with
+  | Ok x, Ok y => f x y
+  | ErrValue, ErrValue | ErrIndex, ErrIndex | ErrType, ErrType => true
+  | _, _ => false
+  end.
+
+Inductive dop := DAstype (d : dtype) | DReal | DComplex | DGetitem (i : pidx) | DByaxis (i : aidx).
+
+Definition run_dop (dv : dvariants) (a : obj Q) (op : dop) : res (obj Q) :=
+  match op with
+  | DAstype d => oastype dv a d
+  | DReal => oreal_space dv a
+  | DComplex => ocomplex_space dv a
+  | DGetitem i => ogetitem dv a i
+  | DByaxis i => match a with OTensor t => rmap OTensor (tsp_byaxis t i) | _ => ErrType end
+  end.
+
+Record caseD := { d_dv : dvariants; d_a : obj Q; d_op : dop; d_out : res (obj Q) }.
+Definition checkD (k : caseD) : bool := res_beq obj_beq (run_dop (d_dv k) (d_a k) (d_op k)) (d_out k).
+
+(* the measured variant of the array-weighting hash must be the one the source table shows *)
+From Verif Require Import C20.Tables.
+Record caseV := { cv_v : variants }.
+Definition checkV (k : caseV) : bool := Bool.eqb (v_arrw_hash_type (cv_v k)) table_arrw_hash_type.
